@@ -1294,7 +1294,7 @@ func collectTextNodes(parent *Inline, r *inlineByteReader, end int, textKind Inl
 			}
 		}
 
-		if !r.next() {
+		if r.pos >= end || !r.next() {
 			break
 		}
 		if r.jumped() {
